@@ -41,7 +41,7 @@ func init() {
 			{Name: "object store for gcsca", Kind: "stub", Note: "SimDisk, fault-free in this check"},
 			{Name: "clock", Kind: "stub", Note: "--timestamp from the simulated clock"},
 		},
-		Budget: core.StdBudget(1600, 100*time.Second, 200000, 25*time.Minute),
+		Budget: core.StdBudget(1600, 100*time.Second, 200000, 9*time.Minute),
 		Body:   runC12,
 	})
 }
